@@ -77,6 +77,7 @@ class World:
         os.makedirs(self.globdir, exist_ok=True)
         os.makedirs(self.base, exist_ok=True)
         self.current = None
+        self._content = {}
         self._glob_reversed = None
 
     def write(self, menu, main, a, b):
@@ -92,21 +93,31 @@ class World:
                 kind = menu.kinds[i - 1][0]
                 out.append(line if kind in ('host', 'match') else '  ' + line)
             return '\n'.join(out) + ('\n' if out else '')
-        with open(self.main, 'w') as f:
-            f.write(body(main))
-        with open(self.inc_a, 'w') as f:
-            f.write(body(a))
-        with open(os.path.join(self.globdir, 'a.conf'), 'w') as f:
-            f.write(body(a))
-        with open(os.path.join(self.globdir, 'b.conf'), 'w') as f:
-            f.write(body(b))
+        self._put(self.main, body(main))
+        ta, tb = body(a), body(b)
+        self._put(self.inc_a, ta)
+        self._put(os.path.join(self.globdir, 'a.conf'), ta)
+        self._put(os.path.join(self.globdir, 'b.conf'), tb)
+
+    def _put(self, path, text):
+        """(Re)write a file only when its content changes."""
+        if self._content.get(path) != text:
+            # O_TRUNC on a non-empty ext4 file costs milliseconds here;
+            # overwrite in place and cut to length instead
+            data = text.encode()
+            fd = os.open(path, os.O_WRONLY | os.O_CREAT, 0o600)
+            try:
+                os.pwrite(fd, data, 0)
+                os.ftruncate(fd, len(data))
+            finally:
+                os.close(fd)
+            self._content[path] = text
 
     def texts(self):
         out = {}
         for name, p in (('config', self.main), ('incA / g/a.conf', self.inc_a),
                         ('g/b.conf', os.path.join(self.globdir, 'b.conf'))):
-            with open(p) as f:
-                t = f.read()
+            t = self._content.get(p, '')
             if t or name == 'config':
                 out[name] = t.splitlines()
         return out
@@ -136,50 +147,74 @@ def _cfg_out(cfg, host):
             cfg.get('Tag') or '']
 
 
-def cli_load(world, target):
-    """(first pass alone, whole resolution) through SSHClientConfig.load,
-    the second pass exactly as Options.update(reload=True, ...) makes it."""
+def cli_first(world, target):
+    """First pass alone: what SSHClientConfig.load returns."""
     host, user, mode = target
-    u = user if user else ()
     try:
         c1 = SSHClientConfig.load(None, [world.main], False, False, False,
-                                  LOCAL_USER, u, host, ())
-        first = _cfg_out(c1, host)
-        canon = mode == 'canon'
-        final = c1.has_match_final()
-        if canon or final:
-            host2 = host + 'c' if canon else host
-            c2 = SSHClientConfig.load(c1, [world.main], True, canon, final,
-                                      LOCAL_USER, u, host2, ())
-            return first, _cfg_out(c2, host2)
-        return first, first
+                                  LOCAL_USER, user if user else (), host, ())
+        return _cfg_out(c1, host)
     except Exception as exc:            # pylint: disable=broad-except
-        return ('exc', type(exc).__name__, str(exc)[:160]), None
+        return ('exc', type(exc).__name__, str(exc)[:160])
 
 
-def cli_options(world, target):
-    """Whole resolution through the public options object, following
-    connection._connect()."""
-    host, user, mode = target
-    try:
-        kw = dict(config=[world.main], host=host, client_keys=None,
-                  known_hosts=None)
+class _Refused(OSError):
+    pass
+
+
+class Connector:
+    """Runs the real asyncssh.connect() up to the point where it would open
+    the TCP connection: option construction, host name canonicalisation
+    (resolver answers for every name) and the canonical/final re-read are the
+    library's own code.  The connection object handed to create_connection
+    carries the fully resolved options."""
+
+    def __init__(self):
+        import asyncio
+        import socket
+        self.asyncio = asyncio
+        self.loop = asyncio.new_event_loop()
+        self.conn = None
+
+        async def create_connection(factory, *args, **kwargs):
+            self.conn = factory()
+            raise _Refused('not connecting')
+
+        async def getaddrinfo(host, port, **kwargs):
+            return [(socket.AF_INET, socket.SOCK_STREAM, 6, host,
+                     ('10.0.0.9', port or 0))]
+        self.loop.create_connection = create_connection
+        self.loop.getaddrinfo = getaddrinfo
+
+    def close(self):
+        self.loop.close()
+
+    def resolve(self, world, target):
+        host, user, mode = target
+        kw = dict(config=[world.main], client_keys=None, known_hosts=None)
         if user:
             kw['username'] = user
-        o = asyncssh.SSHClientConnectionOptions(**kw)
-        canon = mode == 'canon'
-        final = o.config.has_match_final()
-        host2 = host + 'c' if canon else host
-        if canon or final:
-            o.update(host=host2, reload=True, canonical=canon, final=final)
+        if mode == 'canon':
+            kw.update(canonicalize_hostname=True, canonical_domains=['c'])
+        self.conn = None
+        self.asyncio.set_event_loop(self.loop)
+        try:
+            self.loop.run_until_complete(asyncssh.connect(host, **kw))
+            return ('exc', 'connected?', '')
+        except _Refused:
+            pass
+        except Exception as exc:        # pylint: disable=broad-except
+            return ('exc', type(exc).__name__, str(exc)[:160])
+        finally:
+            self.asyncio.set_event_loop(None)
+        o = self.conn._options          # pylint: disable=protected-access
+        self.conn = None
         c = o.config
         ukh = c.get('UserKnownHostsFile')
         return [str(o.host), str(o.port), str(o.username),
                 list(c.get('IdentityFile', []) or []),
                 list(c.get('SendEnv', []) or []),
                 ['-'] if ukh is None else list(ukh), c.get('Tag') or '']
-    except Exception as exc:            # pylint: disable=broad-except
-        return ('exc', type(exc).__name__, str(exc)[:160])
 
 
 def pred_out(pred):
@@ -338,7 +373,7 @@ def srv_reload(world, user):
 def inside(base, path):
     """The path stays below `base` under POSIX and Windows reading, with
     ~ and ${} given their meaning."""
-    if path.startswith('~') or '${' in path:
+    if path.startswith('~') or _env.search(path):
         return False
     for mod, b in ((posixpath, base), (ntpath, base)):
         n = mod.normpath(path)
